@@ -97,6 +97,7 @@ def roundtrip(ctx, doc, tag, route, rng, packets=8, style=("prefix", "xtce")):
     # ---- decode equivalence -------------------------------------------------------------------------------------------
     for raw in gen.gen_packets(rng, doc, packets):
         ctx.count("decode.equivalence_packets")
+        ctx.count("evaluations")
         s1, s2 = solo_result(D, raw), solo_result(D2, raw)
         if s1 != s2:
             ctx.violation(f"{route}/decode-differs/{s1[0]}-vs-{s2[0]}", "a packet decodes differently before and after the write/load cycle",
